@@ -488,6 +488,25 @@ def r3(ctx):
         rule.check(is_len, "the early exit tests the length of the returned vector against max_nodes", "nodes_by_distances|cap",
                    "nodes_by_distances returns early when %s reaches max_nodes, which is not the number of nodes collected: the answer can be cut short (or grow past the cap)"
                    % fmt_short(other), loc=nd.loc(nd.blocks[bi].term.line))
+    # ... and it is tested after every single node: between two additions to the returned vector the cap test is passed (a whole bucket
+    # appended between two tests can push the answer past max_nodes)
+    adds = [(bi, t) for bi, t in nd.calls() if callee_matches(t, r"vec::Vec::<.*>::(push|extend|append|extend_from_slice)$", r"Vec::(push|extend|append|extend_from_slice)$") and
+            t.args and any(roots(p.operand(t.args[0])) == roots(p.local(l)) for l in ret_vecs)]
+    cap_tests = []
+    for bi, t, e in g.switches():
+        c = comparison(e)
+        if c and any(x == mx for x in (c[1], c[2])):
+            other = c[2] if c[1] == mx else c[1]
+            if other[0] == "call" and short(other[1]).endswith("Vec::len") and any(roots(other[2][0]) == roots(p.local(l)) for l in ret_vecs):
+                cap_tests.append(bi)
+    okcap = bool(adds) and bool(cap_tests) and all(short(t.callee() or "").endswith("::push") for _, t in adds)
+    if okcap:
+        for bi, t in adds:
+            rr = nd.reachable(t.target, removed_blocks=cap_tests)
+            if any(b2 in rr for b2, _ in adds):
+                okcap = False
+    rule.check(okcap, "nodes are added to the answer one at a time and the cap is tested after each", "nodes_by_distances|cap-per-node",
+               "nodes_by_distances can add several nodes (e.g. a whole bucket) between two tests of the cap: the answer can exceed max_nodes", loc=nd.loc(nd.line))
     return rule
 
 
